@@ -63,7 +63,27 @@ def cargo_build(bins, release=False):
     if rc != 0:
         raise CheckBroken("cargo build failed (does /repo still compile?):\n" + out[-6000:])
     prof = "release" if release else "debug"
-    return {b: os.path.join(TARGET, prof, b) for b in bins}
+    # private copies: a concurrent cargo build (another check, a rebuilt /repo) re-links the files in the
+    # shared target directory while this run is still using them
+    out = {}
+    for b in bins:
+        src = os.path.join(TARGET, prof, b)
+        dst = os.path.join(_private_bin_dir(), prof + "-" + b)
+        shutil.copy2(src, dst)
+        out[b] = dst
+    return out
+
+
+_PRIV = []
+
+
+def _private_bin_dir():
+    if not _PRIV:
+        import atexit
+        d = tempfile.mkdtemp(prefix="sgv-bin-")
+        _PRIV.append(d)
+        atexit.register(lambda: shutil.rmtree(d, ignore_errors=True))
+    return _PRIV[0]
 
 
 def coq_project():
@@ -212,7 +232,7 @@ def check_obligations(prop_file, allow="default", rebuild_timeout=900):
         if b.startswith("Closed under"):
             ax = []
         else:
-            ax = re.findall(r"^([A-Za-z_][\w.']*)\s*:", b, re.M)
+            ax = [a for a in re.findall(r"^([A-Za-z_][\w.']*)\s*:", b, re.M) if a != "Axioms"]
         res["axioms"][n] = ax
         extra = [a for a in ax if a not in allowed and a.split(".")[-1] not in {x.split(".")[-1] for x in allowed}]
         if extra:
